@@ -57,6 +57,11 @@ func wildFloat(r *simcore.RNG, class int) float64 {
 	case 10: // round-off residues as CAD exporters write them: few digits, exponent -8..-24
 		m := float64(1+r.Intn(99999999)) / math.Pow(10, float64(r.Intn(8)))
 		return math.Copysign(m*math.Pow(10, -float64(8+r.Intn(17))), r.Float64()-0.5)
+	case 11: // exact binary ties at the fourth (odd/32) and second (odd/8) decimal: round-half-even versus half-away
+		if r.Intn(3) == 0 {
+			return float64(2*r.Intn(4000)-4000+1) / 8
+		}
+		return float64(2*r.Intn(16000)-16000+1) / 32
 	case 9: // far away: small detail next to it is absorbed by careless arithmetic
 		return math.Copysign(math.Pow(10, 13+3*r.Float64()), r.Float64()-0.5)
 	default: // medium: beyond +-2148 (3MF de-duplication bucket range)
@@ -67,11 +72,11 @@ func wildFloat(r *simcore.RNG, class int) float64 {
 func wildClass(r *simcore.RNG, mode string) int {
 	switch mode {
 	case "wild-small": // classes that keep |v| < 2000 and are well conditioned
-		return []int{0, 1, 2, 6, 8, 10}[r.Intn(6)]
+		return []int{0, 1, 2, 6, 8, 10, 11}[r.Intn(7)]
 	case "wild-medium":
-		return []int{0, 1, 2, 6, 7, 8, 10}[r.Intn(7)]
+		return []int{0, 1, 2, 6, 7, 8, 10, 11}[r.Intn(8)]
 	default:
-		return r.Intn(11)
+		return r.Intn(12)
 	}
 }
 
